@@ -5,5 +5,5 @@ CONSTANTS
   CStride = 400
   Seed = 0
   MaxQuotes = 2
-INVARIANTS Exported ValidHasNoCert BracketLaw
+INVARIANTS Judged
 CHECK_DEADLOCK FALSE
